@@ -108,6 +108,17 @@ func Shuffle(n int, swap func(i, j int)) { shuffle(n, swap, rand.Shuffle) }
 func Int63() int64                       { return rand.Int63() }
 func Int() int                           { return rand.Int() }
 func Int31() int32                       { return rand.Int31() }
-func Uint32() uint32                     { return rand.Uint32() }
+func Uint32() uint32 {
+	if t := sched.Cur(); t != nil {
+		detCounter++
+		return uint32(1000 + 97*t.ID + detCounter)
+	}
+	return rand.Uint32()
+}
+
+var detCounter int
+
+// ResetDet resets the deterministic counter (called by harness set-up).
+func ResetDet() { detCounter = 0 }
 func Uint64() uint64                     { return rand.Uint64() }
 func Read(p []byte) (int, error)         { return rand.Read(p) } //nolint
